@@ -217,7 +217,13 @@ fn call(f: &str, a: &[Value]) -> Value {
         // real range hashing: args = [data (latin-1 text), [[start,len]..] | null, is_exclusion, max_hash_buf, expected bytes (hex)]
         "hash_ranges" => {
             let data: Vec<u8> = s(&a[0]).chars().map(|c| c as u32 as u8).collect();
-            let ranges = a[1].as_array().map(|rs| rs.iter().map(|r| c2pa::HashRange::new(r[0].as_u64().unwrap(), r[1].as_u64().unwrap())).collect::<Vec<_>>());
+            let ranges = a[1].as_array().map(|rs| rs.iter().map(|r| {
+                let mut h = c2pa::HashRange::new(r[0].as_u64().unwrap(), r[1].as_u64().unwrap());
+                if let Some(o) = r.get(2).and_then(|v| v.as_u64()) {
+                    h.set_bmff_offset(o);
+                }
+                h
+            }).collect::<Vec<_>>());
             let excl = a[2].as_bool().unwrap();
             let maxbuf = a[3].as_u64().unwrap() as usize;
             let want = hex_bytes(s(&a[4]));
